@@ -137,7 +137,7 @@ type signCase struct {
 
 var errCallback = errors.New("callback signer refused")
 
-func famSign(tr *Trace, scratch string, seed int64, tier string, repo string) M {
+func famSign(tr *Trace, scratch string, seed int64, tier string, repo string, behaviours string) M {
 	os.Unsetenv("SOURCE_DATE_EPOCH")
 	rng := rand.New(rand.NewSource(seed + 1234))
 	kr := pgpKeyring(repo)
@@ -475,5 +475,9 @@ func famSign(tr *Trace, scratch string, seed int64, tier string, repo string) M 
 		}
 	}
 	nrot := famSignRotation(tr, &last, scratch)
-	return M{"cases": len(cases), "key_rotations": nrot}
+	nflow := 0
+	if behaviours != "" {
+		nflow = famSignFlow(tr, &last, scratch, behaviours)
+	}
+	return M{"cases": len(cases), "key_rotations": nrot, "signflow_behaviours_replayed": nflow}
 }
